@@ -712,6 +712,18 @@ func TestVerif_C15_roundtrip(t *testing.T) {
 		for _, ds := range cs.Names {
 			c15CreateDataset(t, w, ds)
 		}
+		if rapid.Bool().Draw(t, "readFirst") {
+			// the datasets are read before anything is posted: whatever the hub remembers from serving
+			// them empty (contexts in particular) must not show in what it serves afterwards
+			for _, ds := range cs.Names {
+				for _, kind := range []string{"changes", "entities"} {
+					if _, err := c15ReadBack(w, ds, kind, 0); err != nil {
+						c15Fail(t, cs, "reading the empty dataset: %v", err)
+					}
+				}
+			}
+			kit.S().Class("read-before-post", 1)
+		}
 		path := "/datasets/d1/entities"
 		if via == "transactions" {
 			path = "/transactions"
